@@ -106,3 +106,28 @@ Definition ranked_b : bool :=
                     | None => true
                     end) (d_frags D).
 End Lp.
+
+(* the offending nodes as a three-valued oracle: the fields of a visited selection set that
+   are a member of an incompatible pair with one response key; None = out of fuel somewhere
+   (never a verdict).  Proofs/ValidateOffending.v: the ids are exactly the Spec's offending
+   nodes, and every node the rule's model reports is among them. *)
+Definition is_some {A} (o : option A) : bool := match o with Some _ => true | None => false end.
+Definition offending_set_o (S : schema) (D : document) (fuel : nat) (s : fset) : option (list N) :=
+  match expanded_o S D s with
+  | None => None
+  | Some l =>
+    if forallb (fun a => forallb (fun b => if String.eqb (fe_key a) (fe_key b)
+                                           then is_some (compat_o S D fuel false a b) else true) l) l
+    then Some (flat_map (fun a =>
+                 if existsb (fun b => String.eqb (fe_key a) (fe_key b) &&
+                                      match compat_o S D fuel false a b with Some false => true | _ => false end) l
+                 then [fe_id a] else []) l)
+    else None
+  end.
+Fixpoint collect_o {A B} (f : A -> option (list B)) (l : list A) : option (list B) :=
+  match l with
+  | [] => Some []
+  | x :: r => match f x, collect_o f r with Some a, Some b => Some (a ++ b) | _, _ => None end
+  end.
+Definition offending_o (S : schema) (D : document) (fuel : nat) : option (list N) :=
+  collect_o (offending_set_o S D fuel) (all_sets S D).
